@@ -19,10 +19,10 @@ from . import common as C
 GEN_FILES = []
 DRIVERS = ["difffmt"]
 THEOREMS = [
-    "C01_fmt_parse_render", "C01_fmt_parse_render_with_insertions", "C01_fmt_refuted",
-    "C01_fmt_known_classes_fail", "C01_fmt_quotepath_independent",
+    "C01_fmt_parse_render", "C01_fmt_parse_render_with_insertions", "C01_fmt_former_witnesses",
+    "C01_fmt_quotepath_independent",
     "C01_fmt_hunk_header", "C01_fmt_hunk_header_total", "C01_fmt_hunk_header_overflow_refuted",
-    "C01_fmt_unescape_quote", "C01_fmt_unescape_quote_refuted", "C01_fmt_unescape_panic_refuted",
+    "C01_fmt_unescape_quote", "C01_fmt_unescape_lone_quote",
     "C01_fmt_lossy_roundtrip", "C01_fmt_nonvacuous",
 ]
 TRUSTED_BASE = [
@@ -42,9 +42,9 @@ ASSUMPTIONS = [
     "line numbers below 2^31 (u32 start+count cannot overflow); in debug builds an overflowing header panics",
 ]
 
-K1 = "C01-K1 added line beginning with '++ ' is taken for a file header"
-K2 = "C01-K2 unquoted path ending in whitespace loses it (trim_end in normalize_diff_path_token)"
-K3 = "C01-K3 path containing BEL/BS/VT/FF: git prints a letter escape unescape_git_path does not know"
+# Former known classes C01-K1 (added line beginning with '++ '), C01-K2 (unquoted path ending in whitespace),
+# C01-K3 (path with BEL/BS/VT/FF) are repaired in the code this check describes: nothing is excused any more,
+# their witnesses are part of the corpus (git_worker: CORPUS) and must pass.
 
 NONL = b"\\ No newline at end of file"
 PROFILE = ["--no-ext-diff", "--no-textconv", "--src-prefix=a/", "--dst-prefix=b/", "--no-relative", "--no-color",
@@ -152,24 +152,6 @@ def must_quote(qp, b):
     return b < 32 or b in (34, 92, 127) or (qp and b >= 128)
 
 
-def classify_known(doc, qp):
-    """independent (Python) statement of the known classes; returns the set of class labels present"""
-    out = set()
-    for f in doc:
-        if any(x.startswith(b"++ ") for h in f["hunks"] for x in h["new"]):
-            out.add(K1)
-        if f["del"] or not f["hunks"]:
-            continue
-        p = f["path"]
-        if not any(must_quote(qp, b) for b in p):
-            s = p.decode("utf-8", "replace")
-            if s and ord(s[-1]) in WS:
-                out.add(K2)
-        if any(b in (7, 8, 11, 12) for b in p):
-            out.add(K3)
-    return out
-
-
 def map_of(x):
     """((KEY (n...)) ...) -> {str: [n]}"""
     return {C.uncps(e[0]): e[1] for e in x}
@@ -259,6 +241,18 @@ def write_tree(repo, env, files):
     return git(repo, env, "write-tree").strip().decode()
 
 
+BASE5 = b"l1\nl2\nl3\nl4\nl5\n"
+CORPUS = [
+    ({b"f.txt": BASE5}, {b"f.txt": b"l1\n++ weird\nl2\nl3\nl4\nai later\nl5\n"}),          # former C01-K1
+    ({b"f.txt": BASE5}, {b"f.txt": b"l1\n++ \"\nl2\nl3\nl4\nai later\nl5\n"}),             # former C01-K1, panic sub-case
+    ({b"f.txt": BASE5}, {b"f.txt": b"l1\n++ /dev/null\nl2\nl3\nl4\nai later\nl5\n"}),
+    ({b"trail ": BASE5}, {b"trail ": b"l1\nai\nl2\nl3\nl4\nl5\n"}),                         # former C01-K2
+    ({}, {b"new  ": b"ai\n", "nbsp\u00a0".encode(): b"ai\n"}),
+    ({b"bel\x07x": BASE5}, {b"bel\x07x": b"l1\nai\nl2\nl3\nl4\nl5\n"}),                   # former C01-K3
+    ({}, {b"\x08\x0b\x0c": b"ai\n"}),
+]
+
+
 def git_worker(args):
     base, seed, widx, n = args
     r = C.Rng(seed).fork(f"c01fmt-git-{widx}")
@@ -270,16 +264,15 @@ def git_worker(args):
     git(repo, env, "init", "-q")
     out = []
     for s in range(n):
-        corpus = (widx == 0 and s == 0)
+        corpus = CORPUS[s] if (widx == 0 and s < len(CORPUS)) else None
         names = []
         for _ in range(r.range(1, 5)):
             nm = r.pick(NAME_POOL) if r.chance(4, 5) else b"gen%d.txt" % r.below(50)
             if not conflicts(nm, names):
                 names.append(nm)
         ta, tb = {}, {}
-        if corpus:     # the reproduced two-hunk witness
-            ta = {b"f.txt": b"l1\nl2\nl3\nl4\nl5\n"}
-            tb = {b"f.txt": b"l1\n++ weird\nl2\nl3\nl4\nai later\nl5\n"}
+        if corpus:     # regression witnesses of the repaired classes
+            ta, tb = corpus
         else:
             for nm in names:
                 kind = r.weighted([(6, "mod"), (2, "new"), (2, "del"), (1, "same"), (1, "newempty"), (1, "fromempty")])
@@ -296,7 +289,9 @@ def git_worker(args):
                     tb[nm] = b""
                 else:
                     ta[nm], tb[nm] = b"", blob(r, a)
-        qp = 0 if (r.chance(1, 4) and not corpus) else 1
+        qp = 0 if (r.chance(1, 4) and corpus is None) else 1
+        if corpus is not None and s == 4:
+            qp = 0          # unquoted name ending in NBSP
         try:
             A = write_tree(repo, env, ta)
             B = write_tree(repo, env, tb)
@@ -417,8 +412,8 @@ def run_fmt(ctx):
     H, D = C.VHARNESS, C.driver_path("difffmt")
     model = ctx.model_ok
     stats = {"git_scenarios": 0, "git_files": 0, "git_hunks": 0, "git_errors": 0, "render_mismatch": 0,
-             "oracle_fail_known": 0, "oracle_fail_unknown": 0, "non_utf8_paths_skipped_in_oracle": 0, "qp_false": 0,
-             "wf_true_docs": 0, "known_docs": 0, "theorem_instances_checked": 0}
+             "oracle_fail": 0, "non_utf8_paths_skipped_in_oracle": 0, "qp_false": 0,
+             "wf_true_docs": 0, "theorem_instances_checked": 0}
 
     # ---------------- (b)+(c) real git
     res = C.parallel_map(git_worker, [(ctx.scratch, ctx.seed, w, n_git) for w in range(n_git_workers)])
@@ -460,7 +455,6 @@ def run_fmt(ctx):
         if len(sample_texts) < 200:
             sample_texts.append(s["text"].decode("utf-8", "replace"))
         exp_all, exp_ins = expected_maps(doc)
-        known = classify_known(doc, s["qp"])
         # --- oracle (c)
         out = rust_real.get(i)
         ok = False
@@ -489,15 +483,11 @@ def run_fmt(ctx):
                 if not ok:
                     detail = f"want {want_all} / {want_ins} got {got_all} / {got_ins}"
         if not ok:
-            if known:
-                stats["oracle_fail_known"] += 1
-                known_seen.update(known)
-            else:
-                stats["oracle_fail_unknown"] += 1
-                violations.append((f"added-line scanners disagree with git's hunks on {s['id']} (qp={s['qp']}): {str(detail)[:300]}",
-                                   {"kind": "c01fmt-oracle", "qp": s["qp"], "tree_a": {k.decode('latin-1'): v.decode('latin-1') for k, v in s["a"].items()},
-                                    "tree_b": {k.decode('latin-1'): v.decode('latin-1') for k, v in s["b"].items()},
-                                    "git_diff_latin1": s["text"].decode("latin-1"), "rust": out, "detail": str(detail)[:1000]}))
+            stats["oracle_fail"] += 1
+            violations.append((f"added-line scanners disagree with git's hunks on {s['id']} (qp={s['qp']}): {str(detail)[:300]}",
+                               {"kind": "c01fmt-oracle", "qp": s["qp"], "tree_a": {k.decode('latin-1'): v.decode('latin-1') for k, v in s["a"].items()},
+                                "tree_b": {k.decode('latin-1'): v.decode('latin-1') for k, v in s["b"].items()},
+                                "git_diff_latin1": s["text"].decode("latin-1"), "rust": out, "detail": str(detail)[:1000]}))
         # --- correspondence on real output
         if model:
             mo = model_real.get(i)
@@ -514,30 +504,30 @@ def run_fmt(ctx):
                     a, b = bytes(dd["text"][1]), s["text"]
                     k = next((j for j in range(min(len(a), len(b))) if a[j] != b[j]), min(len(a), len(b)))
                     mismatches.append((i, f"render differs from git (qp={s['qp']}) at byte {k}: model {a[max(0,k-40):k+40]!r} git {b[max(0,k-40):k+40]!r}"))
-                wf, kn = dd["wf"][1] == 1, dd["known"][1] == 1
+                wf = dd["wf"][1] == 1
                 stats["wf_true_docs"] += wf
-                stats["known_docs"] += kn
                 if not wf:
                     wf_false.append(i)
-                if s["qp"] == 1 and kn != bool(known):
-                    mismatches.append((i, f"Known_C01_fmt (model {kn}) and the Python class predicate ({sorted(known)}) disagree"))
-                # theorem instance: wf, not known, qp=true -> model parse = added_lines
-                if wf and not kn and s["qp"] == 1 and mo and mo.startswith("(ok"):
+                # theorem instance: wf, qp=true -> model parse = added_lines
+                if wf and s["qp"] == 1:
                     stats["theorem_instances_checked"] += 1
-                    mx = C.sx_parse_many(mo)[0]
-                    if mx[1] != dd["added"][1] or mx[2] != dd["ins"][1]:
+                    ok_i = mo is not None and mo.startswith("(ok")
+                    if ok_i:
+                        mx = C.sx_parse_many(mo)[0]
+                        ok_i = mx[1] == dd["added"][1] and mx[2] == dd["ins"][1]
+                    if not ok_i:
                         mismatches.append((i, "theorem instance fails in the extracted model (parse <> added_lines)"))
             if len(samples) < 3 and len(doc) >= 2:
                 samples.append({"case": "real git diff", "qp": s["qp"], "names": [n.decode("latin-1") for n in s["names"]],
                                 "git_output_head": s["text"][:300].decode("latin-1"), "rust": str(out)[:300],
-                                "expected_all": {k.decode("latin-1"): v for k, v in exp_all.items()}, "known_classes": sorted(known)})
+                                "expected_all": {k.decode("latin-1"): v for k, v in exp_all.items()}})
     if model:
         obligations.append(("monitor:wf_doc holds for every document extracted from real git output", not wf_false,
                             ", ".join(wf_false[:5])))
 
     timing["git"] = round(time.time() - T0, 1)
     # ---------------- (a1) synthetic documents: model render -> both parsers
-    kinds_doc = {"wf": 0, "known": 0, "files": 0, "hunks": 0}
+    kinds_doc = {"wf": 0, "files": 0, "hunks": 0}
     if model:
         dcases = []
         for k in range(n_doc):
@@ -554,7 +544,6 @@ def run_fmt(ctx):
             dd = {x[0]: x for x in C.sx_parse_many(ro)}
             text = bytes(dd["text"][1])
             kinds_doc["wf"] += dd["wf"][1]
-            kinds_doc["known"] += dd["known"][1]
             kinds_doc["files"] += len(d)
             kinds_doc["hunks"] += sum(len(f["hunks"]) for f in d)
             if not safe_text(text.decode("latin-1")):
@@ -567,7 +556,7 @@ def run_fmt(ctx):
         for i, t, dd, qp in tcases:
             if a.get(i) != b.get(i):
                 mismatches.append((i, f"parse-bytes on rendered doc: impl {str(a.get(i))[:100]} model {str(b.get(i))[:100]} text {t[:120]!r}"))
-            elif dd["wf"][1] == 1 and dd["known"][1] == 0 and qp == 1:
+            elif dd["wf"][1] == 1 and qp == 1:
                 stats["theorem_instances_checked"] += 1
                 mo = b.get(i)
                 ok = mo and mo.startswith("(ok")
@@ -674,7 +663,7 @@ def run_fmt(ctx):
         if a.get(i) is None or (model and a.get(i) != b.get(i)):
             mismatches.append((i, f"from_utf8_lossy on {t!r}: impl {str(a.get(i))[:80]} model {str(b.get(i))[:80]}"))
     # quote (model = git's quote_c_style, validated by the render comparison) then the REAL unescape: oracle of C01_fmt_unescape_quote
-    n_q_ok = n_q_known = 0
+    n_q_ok = 0
     if model:
         qo = C.run_cases(D, "c01-quote", [(i, f"{qp} {C.sx(list(nm))}") for i, qp, nm in qcs])
         uin = []
@@ -688,9 +677,6 @@ def run_fmt(ctx):
             good = got is not None and got.startswith("(ok") and C.uncps(C.sx_parse_many(got)[0][1]) == want
             if good:
                 n_q_ok += 1
-            elif any(c in (7, 8, 11, 12) for c in nm):
-                n_q_known += 1
-                known_seen.add(K3)
             else:
                 try:
                     nm.decode("utf-8")
@@ -722,7 +708,7 @@ def run_fmt(ctx):
             "samples": samples,
             "input_distribution": {"text_kinds": tk, "scanner_outcomes": outcome, "hunk_header_outcomes": hh_out,
                                    "synthetic_docs": kinds_doc, "git": stats,
-                                   "quote_unescape_roundtrip": {"ok": n_q_ok, "known_K3": n_q_known}},
+                                   "quote_unescape_roundtrip": {"ok": n_q_ok, "of": len(qcs)}},
             "correspondence_mismatches": len(mismatches),
             "cumulative_seconds": timing,
         },
